@@ -771,7 +771,7 @@ spif_linked_list_insert_at(spif_linked_list_t self, spif_obj_t obj, spif_listidx
         /* Negative indexes go backward from the end of the list. */
         idx += self->len;
     }
-    REQUIRE_RVAL((idx + 1) >= 0, FALSE);
+    REQUIRE_RVAL((idx + 1) > 0, FALSE);
 
     if (idx == 0 || SPIF_LINKED_LIST_ITEM_ISNULL(self->head)) {
         return spif_linked_list_prepend(self, obj);
@@ -915,6 +915,7 @@ spif_linked_list_reverse(spif_linked_list_t self)
     spif_linked_list_item_t current, tmp, previous;
 
     ASSERT_RVAL(!SPIF_LIST_ISNULL(self), FALSE);
+    tmp = (spif_linked_list_item_t) NULL;
     for (previous = (spif_linked_list_item_t) NULL, current = self->head; current; previous = tmp) {
         tmp = current;
         current = current->next;
